@@ -32,6 +32,10 @@ var badDocs = []struct{ kind, text string }{
 	{"vocabulary", `{"$vocabulary":{"x":true}}`},
 	{"relative-id-chain", `{"$id":"sub/again.json","$defs":{"a":{"$id":"deeper/more.json","$ref":"../../r.json"}}}`},
 	{"duplicate-anchor", `{"$defs":{"a":{"$anchor":"x"},"b":{"$anchor":"x"}}}`},
+	{"draft07-with-dynamicRef", `{"$schema":"http://json-schema.org/draft-07/schema#","$dynamicRef":"#x","definitions":{"x":{"$dynamicAnchor":"x","type":"object"}},"properties":{"v":{"$dynamicRef":"#x"},"n":{"$dynamicRef":"#x"}}}`},
+	{"2020-with-dynamicRef", `{"$schema":"https://json-schema.org/draft/2020-12/schema","$dynamicRef":"#x","$defs":{"x":{"$dynamicAnchor":"x","type":"object"}},"properties":{"v":{"$dynamicRef":"#x"},"n":{"$recursiveRef":"#"}}}`},
+	{"draft07-items-array", `{"$schema":"http://json-schema.org/draft-07/schema#","items":[{"type":"string"}],"additionalItems":false,"dependencies":{"v":["n"],"n":{"required":["v"]}}}`},
+	{"2020-prefixItems", `{"$schema":"https://json-schema.org/draft/2020-12/schema","prefixItems":[{"type":"string"}],"items":false,"dependentSchemas":{"v":{"required":["n"]}},"unevaluatedProperties":false}`},
 	{"empty", `{}`},
 	{"boolean-false", `false`},
 	{"null", `null`},
